@@ -20,6 +20,7 @@ import (
 
 	"github.com/tokenized/config"
 	"github.com/tokenized/pkg/bitcoin"
+	"github.com/tokenized/pkg/wire"
 	"github.com/tokenized/spynode/pkg/client"
 )
 
@@ -108,6 +109,8 @@ func runSendMachine(c *Case) ([]Obs, any) {
 	}
 	var running chan connRes
 	sends := map[int64]*smSend{}
+	var sessions []bitcoin.Hash32
+	dataN := int64(0)
 
 	txid := func(id int64) bitcoin.Hash32 { return *tu.TxRel(id, []int64{9000 + id}, false).TxHash() }
 	msgFor := func(id int64) *client.Message {
@@ -207,6 +210,55 @@ func runSendMachine(c *Case) ([]Obs, any) {
 				carried = r.carried
 				settle()
 				return Obs{OK}
+			case "gensession": // what connect() does before it dials: a fresh session hash / server session key
+				h, err := rc.VerifGenerateSession()
+				if err != nil {
+					return Obs{ERR}
+				}
+				sessions = append(sessions, h)
+				return Obs{OK}
+			case "srv_accept": // n: the message-handling goroutine handles the accept the service made for session n
+				// (0: an accept signed by a key that is not the service's)
+				m := &client.AcceptRegister{PushDataCount: 1, UTXOCount: 2, MessageCount: 3}
+				n := int(op.Int(0))
+				var key bitcoin.Key
+				var hash bitcoin.Hash32
+				if n >= 1 && n <= len(sessions) {
+					hash = sessions[n-1]
+					k, err := bitcoin.NextKey(keyFromInt(7), hash)
+					if err != nil {
+						panic(harnessErr("next key: " + err.Error()))
+					}
+					key = k
+				} else {
+					if len(sessions) > 0 {
+						hash = sessions[len(sessions)-1]
+					}
+					key = keyFromInt(13)
+				}
+				m.Key = key.PublicKey()
+				sh, err := m.SigHash(hash)
+				if err != nil {
+					panic(harnessErr("sighash: " + err.Error()))
+				}
+				if m.Signature, err = key.Sign(*sh); err != nil {
+					panic(harnessErr("sign: " + err.Error()))
+				}
+				herr := rc.VerifHandleMessage(ctx, &client.Message{Payload: m})
+				a, _ := rc.VerifFlags()
+				return Obs{b2i(herr != nil), b2i(a)}
+			case "flags":
+				a, _ := rc.VerifFlags()
+				return Obs{OK, b2i(a)}
+			case "srv_data": // the message-handling goroutine handles a tx message carrying the expected message id
+				next := rc.NextMessageID()
+				dataN++
+				tx := tu.TxRel(5000+dataN, []int64{90000 + dataN}, false)
+				outs := []*wire.TxOut{wire.NewTxOut(1000, []byte{0x51})}
+				if err := rc.VerifHandleMessage(ctx, &client.Message{Payload: &client.Tx{ID: next, Tx: tx, Outputs: outs}}); err != nil {
+					return Obs{ERR}
+				}
+				return Obs{OK, b2i(rc.NextMessageID() != next)}
 			case "writes":
 				o := Obs{OK}
 				for _, vc := range conns {
